@@ -386,6 +386,41 @@ def pdu_minimal(kind, large):
     return PDU_MINIMAL[kind] + (4 if large and kind in ("eof", "metadata", "keep_alive") else 0) + (8 if large and kind == "nak" else 0)
 
 
+def srv1_need(sub, sw, cw):
+    return 4 + (sw if sub in (5, 6) else 0) + (cw if sub % 2 == 0 else 0)
+
+
+def refused_unit_grid():
+    """(what, spec) for every too-short unit of the small families: the deciding unit of a bound that is off by one or two is a
+    single cell (one kind, CRC on, exactly one octet short), which sampling reaches only now and then (found by the second
+    mechanical campaign, DESIGN 10)."""
+    for kind in PDU_MINIMAL:
+        for crc in (0, 1):
+            for large in (0, 1):
+                for extra in range(0, pdu_minimal(kind, large) - 1):
+                    yield "pdu_short_for_directive", {"kind": kind, "crc": crc, "large": large, "extra": extra}
+    for crc in (0, 1):
+        for large in (0, 1):
+            fss = 8 if large else 4
+            for have in range(0, fss):
+                yield "fd_short_for_offset", {"crc": crc, "large": large, "segmeta": 0, "have": have}
+            for ml in (0, 1, 2, 7, 63):
+                for have in sorted({0, 1, max(0, ml - 1), ml, ml + 1, ml + 2, ml + fss - 2, ml + fss - 1}):
+                    if have < ml + fss:
+                        yield "fd_short_for_offset", {"crc": crc, "large": large, "segmeta": 1, "ml": ml, "have": have}
+    for what in ("tm_short_for_timestamp", "srv17_short_for_timestamp"):
+        for tsl in (7, 12, 16):
+            for have in range(0, tsl):
+                yield what, {"tsl": tsl, "have": have}
+    for sub in (2, 4, 5, 6, 8):
+        for sw in (1, 2, 4):
+            for cw in (1, 2, 4):
+                for have in range(0, srv1_need(sub, sw, cw)):
+                    yield "srv1_short_for_fields", {"sub": sub, "sw": sw, "cw": cw, "have": have}
+    for n in range(0, 6):
+        yield "tc_short_length_field", {"n": n}
+
+
 def k_refused_unit(ctx, what, seed, spec=None):
     """Units that declare less than their reader needs (self-consistent, valid CRC, but too short for the timestamp / step id /
     directive fields the reader was told to expect): whether such a unit is refused must not depend on what follows it in the
@@ -400,30 +435,30 @@ def k_refused_unit(ctx, what, seed, spec=None):
     case = {"k": "refused_unit", "what": what, "seed": seed, "spec": spec}
     ctx.case(f"refused_unit/{what}", (seed, json.dumps(spec, sort_keys=True)), sample=case)
     if what in ("tm_short_for_timestamp", "srv17_short_for_timestamp"):
-        tsl = r.choice((7, 12, 16))
-        have = r.randrange(0, tsl)                               # timestamp + source data octets really present: fewer than the reader's timestamp
+        tsl = spec["tsl"] if spec else r.choice((7, 12, 16))
+        have = spec["have"] if spec else r.randrange(0, tsl)                               # timestamp + source data octets really present: fewer than the reader's timestamp
         u = P.tm(r.getrandbits(11), r.getrandbits(14), 17, 2, 0, 0, 0, b"", rand_bytes(r, have))
         dec = (lambda b: PusTm.unpack(b, tsl)) if what.startswith("tm") else (lambda b: Service17Tm.unpack(b, tsl))
     elif what == "srv1_short_for_fields":
-        sw, cw = r.choice((1, 2, 4)), r.choice((1, 2, 4))
-        sub = r.choice((2, 4, 5, 6, 8))
-        need = 4 + (sw if sub in (5, 6) else 0) + (cw if sub % 2 == 0 else 0)
-        u = P.tm(r.getrandbits(11), r.getrandbits(14), 1, sub, 0, 0, 0, b"", rand_bytes(r, r.randrange(0, need)))
+        sw, cw = (spec["sw"], spec["cw"]) if spec else (r.choice((1, 2, 4)), r.choice((1, 2, 4)))
+        sub = spec["sub"] if spec else r.choice((2, 4, 5, 6, 8))
+        need = srv1_need(sub, sw, cw)
+        u = P.tm(r.getrandbits(11), r.getrandbits(14), 1, sub, 0, 0, 0, b"", rand_bytes(r, spec["have"] if spec else r.randrange(0, need)))
         dec = lambda b: Service1Tm.unpack(b, UnpackParams(0, sw, cw))  # noqa: E731
     elif what == "tc_short_length_field":
         full = P.tc(r.getrandbits(11), r.getrandbits(14), 17, 1, 0, 0xF, b"")
-        n = r.randrange(0, 6)                                    # declared data length too small for secondary header + CRC
+        n = spec["n"] if spec else r.randrange(0, 6)                                    # declared data length too small for secondary header + CRC
         u = full[:4] + n.to_bytes(2, "big") + full[6:7 + n]
         dec = PusTc.unpack
     elif what == "fd_short_for_offset":
-        cfg = C.rand_cfg(r, crc=r.getrandbits(1))
+        cfg = C.rand_cfg(r, crc=spec["crc"], large=spec["large"]) if spec else C.rand_cfg(r, crc=r.getrandbits(1))
         fss = 8 if cfg["large"] else 4
-        segmeta = r.getrandbits(1)
+        segmeta = spec["segmeta"] if spec else r.getrandbits(1)
         if segmeta:
-            ml = r.randrange(0, 10)
-            body = bytes([(r.getrandbits(2) << 6) | ml]) + rand_bytes(r, r.randrange(0, ml + fss))      # metadata and / or offset incomplete
+            ml = spec["ml"] if spec else r.randrange(0, 10)
+            body = bytes([(r.getrandbits(2) << 6) | ml]) + rand_bytes(r, spec["have"] if spec else r.randrange(0, ml + fss))      # metadata and / or offset incomplete
         else:
-            body = rand_bytes(r, r.randrange(0, fss))
+            body = rand_bytes(r, spec["have"] if spec else r.randrange(0, fss))
         u = R.assemble(cfg, 1, 0, body, segmeta=segmeta)
         dec = X.FileDataPdu.unpack if r.random() < 0.5 else X.PduFactory.from_raw
     else:                                                        # directive PDUs whose data field is shorter than the directive's fixed fields
@@ -441,8 +476,9 @@ def k_refused_unit(ctx, what, seed, spec=None):
         what = f"pdu_short_for_directive/{kind}"
     ok, base = attempt(dec, u)
     ctx.table("refused_unit_alone", f"{what.split('/')[0]}:{'accepted' if ok else type(base).__name__}")
-    if ok and what.startswith("pdu_short_for_directive") and cfg["crc"]:
-        # the data field cannot hold the directive's fixed fields without its last two octets, which are the CRC trailer
+    if ok and what.startswith(("pdu_short_for_directive", "fd_short_for_offset")) and cfg["crc"]:
+        # the data field cannot hold the directive's fixed fields (the segment metadata and offset) without its last two octets,
+        # which are the CRC trailer
         ctx.ev("refusal_independent_of_what_follows")
         return ctx.fail("refusal_independent_of_what_follows", "crc_trailer_read_as_parameter_octets", what, case, unit=u, observed=repr(base)[:200])
     if ok:
@@ -485,12 +521,13 @@ def run(ctx):
     for j in range(ctx.n(300, 20_000)):
         for what in ("tm_short_for_timestamp", "srv17_short_for_timestamp", "srv1_short_for_fields", "tc_short_length_field", "pdu_short_for_directive", "fd_short_for_offset"):
             k_refused_unit(ctx, what, ctx.seed * 1_000_003 + ctx.shard[0] * 50_021 + j)
-    for kind in PDU_MINIMAL:
-        for crc in (0, 1):
-            for large in (0, 1):
-                for extra in range(0, pdu_minimal(kind, large) - 1):
-                    k_refused_unit(ctx, "pdu_short_for_directive", ctx.seed * 1_000_003 + extra, spec={"kind": kind, "crc": crc, "large": large, "extra": extra})
-    ctx.exhaustive.append("directive PDUs too short for their fixed fields: 7 kinds x CRC x file-size class x every length below the minimum")
+    for gi, (what, spec) in enumerate(refused_unit_grid()):
+        i += 1
+        if ctx.mine(i):
+            k_refused_unit(ctx, what, ctx.seed * 1_000_003 + gi, spec=spec)
+    ctx.exhaustive.append("units too short for their reader: 7 directive kinds x CRC x file-size class x every length below the minimum; File Data x CRC x "
+                          "file-size class x segment metadata lengths x lengths short of the offset; PUS TM / service 17 x timestamp length x every shorter "
+                          "length; service 1 x subservice x step / code widths x every shorter length; TC length field 0..5")
     preps = 8 if ctx.quick else 300
     for kind in C.KINDS8:
         for crc in (0, 1):
